@@ -17,7 +17,7 @@ use std::io::Cursor;
 
 pub const LEVEL: &str = "fault_enumeration";
 pub const RULE_C05: &str = "faults injected into an otherwise conforming server conversation during connection setup: for every scalar field of every server message (connection confirm, connect-response incl. GCC blocks, attach-user confirm, channel-join confirms, licence) every value of 8-bit fields and the boundary values of 16/32-bit fields (field-sweep, enumerated), every negotiation structure type 0..8 x small and boundary values of its 32-bit field; consistent conversations with unusual identifier assignments (user id equal to the I/O channel or the server's id, other I/O channels); truncation at every byte, trailing garbage, xor corruption of 1..8 bytes and pairs of such faults (generated); plus every byte string of length <= 2 (3 thorough) at the pure parser entries gcc::read_conference_create_response, license::client_connect, per::read_* and as X.224 confirm payload. Oracle: each call returns Ok or Err: no panic, no more than 64 reads on a finished stream, no single allocation > 1 MiB + 64 n and no total > 16 MiB + 4096 n for n server bytes. Non-trivial = the faulty message differs from the conforming one and the client consumed it; distinct by hash of the case.";
-pub const RULE_C06: &str = "the client is driven by a conforming prefix into each of its six activation states, then reads one hostile frame and afterwards one valid frame. Hostile frames: every scalar field of every kind of server PDU (demand-active with capability sets, deactivate-all, synchronize, control, font map, set-error-info, unknown data PDU, fast-path bitmap / pointer / synchronize / unknown updates) set to every 8-bit value / the 16- and 32-bit boundary values (field-sweep, enumerated per state), truncations, extensions, xor corruption, double faults and free byte strings as MCS payload / fast-path payload (generated), all byte strings of length <= 2 at the share-PDU and fast-path parser entries (enumerated); every pair and triple of slow-path PDUs batched into one MCS frame in every state, and generated batches with faults; every 16-bit value in every word of every capability set of the sample demand-active (and of zeroed bodies) directly at Capability::from_capability_set, plus generated capability sets; every PDU kind in every state after each of nine legal variations of the activating demand-active's capability list (order reversed / rotated, subsets, unknown sets only, none); frames with 255..300 PDUs of one kind and sessions that went through 255..300 (generated: 1..300) complete reactivation cycles before the hostile frame. Oracle: read returns Ok or Err: no panic, no spin, allocation bounds as for C05. Non-trivial = hostile frame differs from the conforming one; distinct by hash of the case.";
+pub const RULE_C06: &str = "the client is driven by a conforming prefix into each of its six activation states, then reads one hostile frame and afterwards one valid frame. Hostile frames: every scalar field of every kind of server PDU (demand-active with capability sets, deactivate-all, synchronize, control, font map, set-error-info, unknown data PDU, fast-path bitmap / pointer / synchronize / unknown updates) set to every 8-bit value / the 16- and 32-bit boundary values (field-sweep, enumerated per state), truncations, extensions, xor corruption, double faults and free byte strings as MCS payload / fast-path payload (generated), all byte strings of length <= 2 at the share-PDU and fast-path parser entries (enumerated); every pair and triple of slow-path PDUs batched into one MCS frame in every state, and generated batches with faults; every 16-bit value in every word of every capability set of the sample demand-active (and of zeroed bodies) directly at Capability::from_capability_set, plus generated capability sets; demand-actives with repeated capability sets after earlier activations with other lists; the client's own PDUs (confirm-active, synchronize, control, font list) echoed back to it in every state; every PDU kind in every state after each of nine legal variations of the activating demand-active's capability list (order reversed / rotated, subsets, unknown sets only, none); frames with 255..300 PDUs of one kind and sessions that went through 255..300 (generated: 1..300) complete reactivation cycles before the hostile frame. Oracle: read returns Ok or Err: no panic, no spin, allocation bounds as for C05. Non-trivial = hostile frame differs from the conforming one; distinct by hash of the case.";
 
 pub const B16V: [u32; 24] = [0, 1, 2, 3, 4, 5, 6, 7, 8, 0x7F, 0x80, 0xFF, 0x100, 0x3FF, 0x400, 0x7FFF, 0x8000, 0xFBFF, 0xFC16, 0xFC17, 0xFFFC, 0xFFFD, 0xFFFE, 0xFFFF];
 pub const B32V: [u32; 20] = [0, 1, 2, 3, 4, 6, 7, 8, 0xFF, 0x100, 0xFFFF, 0x1_0000, 0x7FFF_FFFF, 0x8000_0000, 0x8000_0001, 0xFFFF_FFFB, 0xFFFF_FFFC, 0xFFFF_FFFD, 0xFFFF_FFFE, 0xFFFF_FFFF];
@@ -480,6 +480,42 @@ pub enum PduKind {
     DemandActivePadded(u16),
     /// an unparsed data PDU (save session info) with a body of this many bytes
     DataPadded(u16),
+    /// a conforming demand-active whose capability list is the n-th variant of `caps_variant_ext` (duplicated sets, sets in
+    /// other orders ...): interesting after earlier activations with another list
+    DemandActiveCaps(u8),
+    /// the k-th share PDU the client itself has written so far (confirm-active, synchronize, control, font list, input),
+    /// sent back to it as if it came from the server
+    EchoClient(u8),
+}
+
+/// capability lists with repeated sets, on top of `caps_variant`
+pub fn caps_variant_ext(v: u8) -> Vec<(u16, Vec<u8>)> {
+    let all = wire::sample_server_caps();
+    let get = |t: u16| all.iter().find(|(x, _)| *x == t).cloned();
+    let seq = |types: &[u16]| -> Vec<(u16, Vec<u8>)> { types.iter().filter_map(|t| get(*t)).collect() };
+    match v % 16 {
+        0 => seq(&[1, 2, 8]),
+        1 => seq(&[1, 2, 8, 8]),
+        2 => seq(&[8, 8]),
+        3 => seq(&[1, 1, 2, 2, 8, 8]),
+        4 => seq(&[1, 2, 8, 1]),
+        5 => seq(&[2, 1, 2]),
+        6 => seq(&[8, 2, 1, 8, 2, 1, 8]),
+        7 => seq(&[1]),
+        8 => seq(&[1, 1]),
+        9 => {
+            let mut c = all.clone();
+            let last = c.last().cloned();
+            c.extend(last);
+            c
+        }
+        10 => {
+            let mut c = all.clone();
+            c.extend(all.clone());
+            c
+        }
+        other => caps_variant(other),
+    }
 }
 
 /// the share PDU of a slow-path kind (None for fast-path and raw-frame kinds)
@@ -504,6 +540,7 @@ pub fn share_pdu(kind: &PduKind, share: u32) -> Option<Built> {
             wire::demand_active(&DemandActive { share_id: share ^ 0x55, source: b"RDP\0".to_vec(), caps, session_id: 7 }, su)
         }
         PduKind::DataPadded(n) => wire::other_data_pdu(share, su, 0x26, &vec![0x33; *n as usize]),
+        PduKind::DemandActiveCaps(v) => wire::demand_active(&DemandActive { share_id: share ^ 0x77, source: b"RDP\0".to_vec(), caps: caps_variant_ext(*v), session_id: 7 }, su),
         _ => return None,
     })
 }
@@ -584,7 +621,9 @@ pub fn base_frame(kind: &PduKind, share: u32) -> Built {
             x.blob("raw", b);
             x
         }
-        PduKind::DemandActivePadded(_) | PduKind::DataPadded(_) => wrap(&share_pdu(kind, share).unwrap()),
+        PduKind::DemandActivePadded(_) | PduKind::DataPadded(_) | PduKind::DemandActiveCaps(_) => wrap(&share_pdu(kind, share).unwrap()),
+        // filled in by run06 from what the client has written
+        PduKind::EchoClient(_) => Built::new(),
         PduKind::Batch(kinds) => {
             let mut all = Built::new();
             for (i, k) in kinds.iter().enumerate() {
@@ -659,7 +698,28 @@ pub fn run06(c: &Case06) -> Outcome {
         }
     }
     out.label(["state0-demand", "state1-sync", "state2-coop", "state3-granted", "state4-fontmap", "state5-active"][state]);
-    let base = base_frame(&c.kind, SHARE);
+    let mut base = base_frame(&c.kind, SHARE);
+    if let PduKind::EchoClient(k) = &c.kind {
+        out.label("echo-of-client-pdu");
+        // the share PDUs the client has written so far, taken from its own frames
+        let written = h.borrow().transcript.clone();
+        let mut pdus: Vec<Vec<u8>> = Vec::new();
+        if let Ok((frames, _)) = wire::split_tpkt(&written) {
+            for f in frames {
+                if f.len() > 3 {
+                    if let Ok(wire::DomainPdu::SendDataRequest { data, .. }) = wire::parse_domain_pdu(&f[3..]) {
+                        pdus.push(data.to_vec());
+                    }
+                }
+            }
+        }
+        if pdus.is_empty() {
+            return out;
+        }
+        let mut x = Built::new();
+        x.blob("echo", &pdus[*k as usize % pdus.len()]);
+        base = wire::send_data_indication(su, 1003, &x);
+    }
     let mut bytes = base.bytes.clone();
     if let Some(k) = &c.fault {
         bytes = apply_fault(&base, k).0;
@@ -668,7 +728,7 @@ pub fn run06(c: &Case06) -> Outcome {
             bytes = apply_fault(&b2, k2).0;
         }
     }
-    let differs = bytes != base.bytes || matches!(c.kind, PduKind::RawShare(_) | PduKind::RawFastPath(_) | PduKind::RawFrame(_) | PduKind::Batch(_) | PduKind::DemandActivePadded(_) | PduKind::DataPadded(_));
+    let differs = bytes != base.bytes || matches!(c.kind, PduKind::RawShare(_) | PduKind::RawFastPath(_) | PduKind::RawFrame(_) | PduKind::Batch(_) | PduKind::DemandActivePadded(_) | PduKind::DataPadded(_) | PduKind::DemandActiveCaps(_) | PduKind::EchoClient(_));
     if matches!(c.kind, PduKind::Batch(_)) {
         out.label("batch");
     }
@@ -733,6 +793,8 @@ pub fn decode06(s: &mut Src) -> Case06 {
             let n = s.below(24);
             PduKind::RawFrame(s.bytes(n))
         }
+        5 if s.bool() => PduKind::DemandActiveCaps(s.below(16) as u8),
+        5 => PduKind::EchoClient(s.u8()),
         3 | 4 => {
             let n = 2 + s.below(4);
             PduKind::Batch(
@@ -838,6 +900,26 @@ fn batches06() -> Vec<Case06> {
     for n in (0..200u16).chain(15700..16100).chain(32000..32300) {
         v.push(Case06 { state: 0, kind: PduKind::DemandActivePadded(n), fault: None, fault2: None, cycles: 0, caps: 0 });
         v.push(Case06 { state: 5, kind: PduKind::DataPadded(n), fault: None, fault2: None, cycles: 0, caps: 0 });
+    }
+    // a demand-active with each extended capability list (repeated sets ...) in every state, fresh and after one or two earlier
+    // activations that used each of several other lists
+    for v2 in 0..16u8 {
+        for st in 0..6u8 {
+            v.push(Case06 { state: st, kind: PduKind::DemandActiveCaps(v2), fault: None, fault2: None, cycles: 0, caps: 0 });
+        }
+        for caps in [0u8, 2, 3, 6, 7] {
+            for cycles in [1u16, 2] {
+                v.push(Case06 { state: 0, kind: PduKind::DemandActiveCaps(v2), fault: None, fault2: None, cycles, caps });
+            }
+        }
+    }
+    // the client's own PDUs echoed back by the server, in every state
+    for st in 0..6u8 {
+        for k in 0..12u8 {
+            for cycles in [0u16, 1] {
+                v.push(Case06 { state: st, kind: PduKind::EchoClient(k), fault: None, fault2: None, cycles, caps: 0 });
+            }
+        }
     }
     for cycles in [255u16, 256, 257, 300] {
         for k in [PduKind::DeactivateAll, PduKind::DemandActive, PduKind::FpBitmap] {
